@@ -780,7 +780,7 @@ def find_abort(ctx, exe, lines, fail):
         if rc1 != 0 or len(o1) != 1:
             ln = lines[i]
             ctx.violation("harness-abort", {"kind": "the implementation aborted (sanitizer / assertion / crash) on this op",
-                                            "op": ln if len(ln) < 20000 else ln[:20000] + "...", "op_file_note": "full op in this replay only if short",
+                                            "op": ln,
                                             "stderr": e1[-3000:], "how_to_replay": "echo '<op>' | .cache/harness-asan/c02"}, True)
             return True
     ctx.obligation_broken("harness c02 failed (rc=%d) but no single op reproduces it" % rc, err)
@@ -1064,7 +1064,7 @@ def run(ctx):
                 continue
             mism += 1
             why = judge_func(ln, co) if (opn in ENCODER_OPS and func_viol < 4) else None
-            rep = {"op": ln[:5000], "impl": co[:5000], "model": (m_out[i] or "")[:5000]}
+            rep = {"op": ln, "impl": co[:5000], "model": (m_out[i] or "")[:5000]}   # the op is kept whole: --replay re-runs it
             if why:
                 func_viol += 1
                 rep["kind"] = "an encoder-side function of the implementation produced bytes that violate the format: " + why
@@ -1211,7 +1211,7 @@ def run(ctx):
                 if why:
                     bad += 1
                     if bad <= 3:
-                        ctx.violation("search-" + ln.split()[0], {"kind": "search stage (Python oracle): " + why, "op": ln[:5000], "impl": co[:5000],
+                        ctx.violation("search-" + ln.split()[0], {"kind": "search stage (Python oracle): " + why, "op": ln, "impl": co[:5000],
                                                                  "how_to_replay": "echo '<op>' | .cache/harness-asan/c02"}, True)
         ctx.cov["search"] = {"encoder_ops_judged_by_python": sum(1 for ln in lines if ln.split()[0] in ENCODER_OPS), "failing": bad,
                              "relational_cases_judged_by_python": len(cases), "bound_cases": len(blines)}
@@ -1219,13 +1219,13 @@ def run(ctx):
 
 
 def replay(ctx, path):
-    r = json.load(open(path))
+    import replaylib
+    r = replaylib.load("C02", path)
+    if "op" not in r:
+        return replaylib.obligations("C02", run, r, path)
     exe = build(ctx)
     if exe is None:
         return 2
-    if "op" not in r:
-        print("replay names obligations that no longer check:", [b.get("name") for b in r.get("no_longer_checks", [])])
-        return 1
     rc, out, err = vlib.run_lines([exe], [r["op"]])
     print("op:", r["op"][:300])
     print("impl:", (out[0][:300] if out else None), "rc", rc)
